@@ -28,6 +28,7 @@ func c11Alphabet(e *typEnv, c *rm.Col, uuid string, level int) []c11Op {
 	var a []c11Op
 	add := func(name string, op rm.Op) { a = append(a, c11Op{name, op}) }
 	uni := c03Universe(c, level)
+	full := uni
 	if len(uni) > 3+level {
 		uni = uni[:3+level]
 	}
@@ -49,6 +50,16 @@ func c11Alphabet(e *typEnv, c *rm.Col, uuid string, level int) []c11Op {
 			add(fmt.Sprintf("mutate{%s delete #%d}", c.Name, i+1), opMutate("T", uuid, c.Name, "delete", v))
 			add(fmt.Sprintf("mutate{%s delete keys of #%d}", c.Name, i+1), opMutate("T", uuid, c.Name, "delete", rm.SetOf(v.Keys()...)))
 		}
+		if len(uni) >= 3 {
+			mmm := func(name string, muts ...rm.Mut) {
+				add(fmt.Sprintf("mutate{%s %s}", c.Name, name), rm.Op{Op: "mutate", Table: "T", Where: whereUUID(uuid), Muts: muts})
+			}
+			insM := func(v rm.Value) rm.Mut { return rm.Mut{Col: c.Name, Mutator: "insert", Val: v} }
+			delM := func(v rm.Value) rm.Mut { return rm.Mut{Col: c.Name, Mutator: "delete", Val: v} }
+			mmm("insert #1; delete keys of #1", insM(uni[1]), delM(rm.SetOf(uni[1].Keys()...)))
+			mmm("delete keys of #1; insert #2", delM(rm.SetOf(uni[1].Keys()...)), insM(uni[2]))
+			mmm("insert #2; delete #1; insert #1", insM(uni[2]), delM(uni[1]), insM(uni[1]))
+		}
 	case c.Scalar() && (c.KeyT == "integer" || c.KeyT == "real"):
 		one := rm.SetOf(rm.I(1))
 		two := rm.SetOf(rm.I(2))
@@ -67,6 +78,20 @@ func c11Alphabet(e *typEnv, c *rm.Col, uuid string, level int) []c11Op {
 		}
 		add(fmt.Sprintf("mutate{%s insert all}", c.Name), opMutate("T", uuid, c.Name, "insert", rm.SetOf(els...)))
 		add(fmt.Sprintf("mutate{%s delete all}", c.Name), opMutate("T", uuid, c.Name, "delete", rm.SetOf(els...)))
+		// several mutations of the column in ONE mutate operation (folded inside the operation before it is accumulated)
+		mm := func(name string, muts ...rm.Mut) {
+			add(fmt.Sprintf("mutate{%s %s}", c.Name, name), rm.Op{Op: "mutate", Table: "T", Where: whereUUID(uuid), Muts: muts})
+		}
+		ins := func(v rm.Value) rm.Mut { return rm.Mut{Col: c.Name, Mutator: "insert", Val: v} }
+		del := func(v rm.Value) rm.Mut { return rm.Mut{Col: c.Name, Mutator: "delete", Val: v} }
+		els = full[len(full)-1].Set // the multi-mutation operations need two elements at least
+		if len(els) >= 2 {
+			mm("insert all; delete e0", ins(rm.SetOf(els...)), del(rm.SetOf(els[0])))
+			mm("insert all; delete last", ins(rm.SetOf(els...)), del(rm.SetOf(els[len(els)-1])))
+			mm("delete e0; insert e0", del(rm.SetOf(els[0])), ins(rm.SetOf(els[0])))
+			mm("insert e0; insert e1; delete e0", ins(rm.SetOf(els[0])), ins(rm.SetOf(els[1])), del(rm.SetOf(els[0])))
+			mm("delete all; insert e1", del(rm.SetOf(els...)), ins(rm.SetOf(els[1])))
+		}
 	}
 	add("delete", opDelete("T", uuid))
 	return a
@@ -265,7 +290,7 @@ func runC11(r *ev.Run) {
 		for si, start := range starts {
 			var rec func(seq []int, cur rm.Row, names []string)
 			rec = func(seq []int, cur rm.Row, names []string) {
-				if len(seq) >= 2 {
+				if len(seq) >= 1 { // a single operation too: one mutate operation can carry several mutations of the column
 					r.Add("transitions", 1)
 					r.Distinct("states", fmt.Sprintf("%s/%d/%v", c.Name, si, seq))
 					// replay the whole sequence in both aggregation styles
